@@ -136,12 +136,20 @@ func c18Template(r *rec.Rand, k int) ([]C18Param, string) {
 		return nil, "true"
 	case 6:
 		return []C18Param{{"x", pt(PInt)}, {"ll", ptOf(PList, ptOf(PList, pt(PInt)))}, {"mm", ptOf(PMap, pt(PAny))}, {"s", pt(PString)}}, "x > 0"
-	default:
+	case 7:
 		return []C18Param{{"a", pt(PAny)}, {"lu", ptOf(PList, pt(PUint))}, {"md", ptOf(PMap, pt(PDouble))}, {"b", pt(PBool)}}, "b"
+	// two parameters of the SAME container type with different element types: whatever is decoded
+	// or cached per container type name must not leak from one parameter to the other
+	case 8:
+		return []C18Param{{"allowed_names", ptOf(PList, pt(PString))}, {"allowed_ports", ptOf(PList, pt(PInt))}}, "'x' in allowed_names"
+	case 9:
+		return []C18Param{{"ms", ptOf(PMap, pt(PString))}, {"mi", ptOf(PMap, pt(PInt))}, {"mb", ptOf(PMap, pt(PBool))}}, "true"
+	default:
+		return []C18Param{{"lu", ptOf(PList, pt(PUint))}, {"ld", ptOf(PList, pt(PDouble))}, {"lls", ptOf(PList, ptOf(PList, pt(PString)))}, {"ml", ptOf(PMap, ptOf(PList, pt(PInt)))}, {"mt", ptOf(PMap, pt(PTimestamp))}}, "true"
 	}
 }
 
-const c18Templates = 8
+const c18Templates = 11
 
 // C18Upgrade keeps the model of a generated scenario and gives its conditions random
 // parameter lists.
@@ -196,8 +204,12 @@ func C18Custom(r *rec.Rand, force int) *C18Model {
 	m := &C18Model{S: s}
 	conds := func(names ...string) {
 		s.Conds = names
-		for _, n := range names {
-			ps, ex := c18Template(r, r.Intn(c18Templates))
+		for k, n := range names {
+			tk := r.Intn(c18Templates)
+			if force >= 0 { // the forced shapes of one run cover every template
+				tk = ([]int{0, 2, 4, 5, 6, 7, 9, 0, 8}[force%9] + k) % c18Templates
+			}
+			ps, ex := c18Template(r, tk)
 			m.Conds = append(m.Conds, C18Cond{Name: n, Params: ps, Expr: ex})
 		}
 	}
@@ -276,6 +288,9 @@ func C18Custom(r *rec.Rand, force int) *C18Model {
 	default: // random restrictions over all (type, form, condition) combinations
 		m.Shape = "random-restrictions"
 		nc := r.Range(0, 2)
+		if force >= 0 {
+			nc = 2
+		}
 		conds([]string{"c1", "c2"}[:nc]...)
 		tnames := []string{"user", "group", "doc"}
 		rels := map[string][]string{"group": {"member", "owner"}, "doc": {"viewer", "editor", "parent"}}
@@ -549,6 +564,32 @@ func C18NearMiss(r *rec.Rand, t C18PType, depth int) C18Val {
 		bad := C18NearMiss(r, *t.Elem, depth+1)
 		return C18Val{K: 5, L: []C18Val{good, bad}, Go: map[string]any{"k0": good.Go, "k1": bad.Go}}
 	}
+}
+
+// C18Siblings: the other parameters of the condition that have the same container type as p but a
+// different element type.
+func (c C18Cond) C18Siblings(p C18Param) []C18Param {
+	var out []C18Param
+	if p.Type.Elem == nil {
+		return nil
+	}
+	for _, q := range c.Params {
+		if q.Name != p.Name && q.Type.Kind == p.Type.Kind && q.Type.Elem != nil && q.Type.String() != p.Type.String() {
+			out = append(out, q)
+		}
+	}
+	return out
+}
+
+// C18NonEmptyFit: a fitting value of a container type with at least one element.
+func C18NonEmptyFit(r *rec.Rand, t C18PType) C18Val {
+	for k := 0; k < 20; k++ {
+		v := C18FitVal(r, t, 0)
+		if len(v.L) > 0 && v.K != 6 {
+			return v
+		}
+	}
+	return C18FitVal(r, t, 0)
 }
 
 // C18Ctx is a context: sorted keys with their values.
